@@ -921,3 +921,95 @@ def check_copies_fold(run, tree):
             run.violated(construct, where, "raises %s" % e, label)
         except ERR as e:
             run.unresolved(construct, where, "cannot fold: %s" % e)
+
+
+# =============================================================================== thorough tier: the whole history space of a Datagroup
+def check_datagroup_history_space(run, tree, depth=3):
+    """every sequence of up to `depth` dictionary operations (set with a matching / a mismatching length, del, pop, clear, update with
+    good / bad items, on present / absent keys) applied to a fresh Datagroup, compared step by step with a reference dictionary with
+    the insertion gate: same keys in the same order, same members, every stored member named after its key, a refused operation raises
+    ValueError (KeyError for an absent key) and leaves the group as it was"""
+    import itertools
+    hooks = core_hooks()
+    counter = itertools.count()
+
+    def fresh(n):
+        return A("t%d" % next(counter), n)
+    alphabet = [("set", "a", 3), ("set", "a", 5), ("set", "b", 3), ("set", "b", 5), ("del", "a"), ("del", "b"), ("pop", "a"), ("pop", "b"), ("clear",),
+                ("update", (("a", 3), ("b", 3))), ("update", (("b", 5), ("c", 5))), ("update", (("c", 3), ("d", 5)))]
+    bad, unres, nseq, nsteps = [], [], 0, 0
+    for L_ in range(1, depth + 1):
+        for seq in itertools.product(alphabet, repeat=L_):
+            nseq += 1
+            try:
+                g = new_group(tree, hooks)
+                ref = {}                                   # key -> (origin, length)
+                for step, op in enumerate(seq):
+                    nsteps += 1
+                    before = dict(ref)
+                    allowed = None                          # list of acceptable reference states after the step
+                    want_exc = None
+                    args = ()
+                    if op[0] == "set":
+                        v = fresh(op[2])
+                        shape = next(iter(ref.values()))[1] if ref else None
+                        if shape is not None and shape != op[2]:
+                            want_exc = "ValueError"
+                        else:
+                            ref[op[1]] = (v.origin, op[2])
+                        mname, args = "__setitem__", (op[1], v)
+                    elif op[0] in ("del", "pop"):
+                        if op[1] not in ref:
+                            want_exc = "KeyError"
+                        else:
+                            del ref[op[1]]
+                        mname, args = ("__delitem__" if op[0] == "del" else "pop"), (op[1],)
+                    elif op[0] == "clear":
+                        ref.clear()
+                        mname = "clear"
+                    else:
+                        items = [(k, fresh(n_)) for k, n_ in op[1]]
+                        states, cur, failed = [], dict(ref), False
+                        for k, v in items:
+                            shape = next(iter(cur.values()))[1] if cur else None
+                            if shape is not None and shape != v.shape[0]:
+                                failed = True
+                                break
+                            cur[k] = (v.origin, v.shape[0])
+                        if failed:
+                            want_exc = "ValueError"
+                            allowed = [dict(before), dict(cur)]      # atomic refusal, or the items before the bad one applied
+                        else:
+                            ref = cur
+                        mname, args = "update", (dict(items),)
+                    try:
+                        call_method(tree, hooks, g, mname, *args)
+                        got_exc = None
+                    except Raised as e:
+                        got_exc = e.name
+                    if want_exc:
+                        ref = before if allowed is None else None
+                    st = group_state(tree, hooks, g)
+                    got = {k: (v[0], v[1][0]) for k, v in st.items()}
+                    names_ok = all(v[2] == k for k, v in st.items())
+                    ok_state = (list(got.items()) == list(ref.items())) if ref is not None else any(list(got.items()) == list(s_.items()) for s_ in allowed)
+                    if got_exc != want_exc or not ok_state or not names_ok:
+                        bad.append("after %s: %s, group %s (required %s, group %s)" % (
+                            " ; ".join(o[0] + str(o[1:]) for o in seq[:step + 1]), "raises " + got_exc if got_exc else "accepted", {k: v[1] for k, v in got.items()},
+                            "raises " + want_exc if want_exc else "accepted", {k: v[1] for k, v in (ref if ref is not None else allowed[0]).items()}))
+                        break
+                    if ref is None:
+                        ref = got
+            except (Raised, ProgramRaised) as e:
+                bad.append("%s raises %s" % (seq, e))
+            except ERR as e:
+                unres.append("%s: %s" % (seq, e))
+            if len(bad) > 20 or len(unres) > 5:
+                break
+    construct = "%s::history-space[all sequences of up to %d operations over %d operations]" % (DG_Q, depth, len(alphabet))
+    if unres:
+        run.unresolved(construct, "src/osyris/core/datagroup.py", "cannot fold %d sequences, e.g. %s" % (len(unres), unres[0]))
+    else:
+        run.ob(construct, not bad, "src/osyris/core/datagroup.py", ("%d sequences wrong, e.g. " % len(bad) + bad[0]) if bad else
+               "%d sequences (%d steps) agree with the reference dictionary with the insertion gate" % (nseq, nsteps),
+               "some sequence of set/del/pop/clear/update leaves a mis-shaped, misnamed, lost or reordered member, or a refusal changes the group")
